@@ -89,17 +89,28 @@ def run_compile_case(case: dict) -> dict:
                 fh.write(case["settings_text"])
             else:
                 json.dump(case.get("settings_doc", {"settings": SETTINGS}), fh)
-        rc, out, err = cli("explorerscript.cli.compile", ["in.exps", "--settings", "settings.json"], d)
+        extra_args = ["--source-map", "sm.json"] if case.get("with_source_map") else []
+        rc, out, err = cli("explorerscript.cli.compile", ["in.exps", "--settings", "settings.json"] + extra_args, d)
         api = drive.compile_text(src, os.path.join(d, "in.exps"))
         rec = {"kind": "compile", "src": src, "compileExit": rc, "apiStatus": api["status"], "inputOk": case.get("input_ok", True), "why": case.get("why", ""),
                "docParsed": False, "hasSettings": False, "doc": [],
                "api": api["ops"], "apiKinds": [i["kind"] for i in api["infos"]], "decompileExit": -1, "stderr": err[-300:], "text": "", "behaviour": None}
         doc = None
         try:
-            doc = json.loads(out)
+            doc = json.loads(out)          # stdout must be exactly the document (also with --source-map)
             rec["docParsed"] = isinstance(doc, dict)
         except Exception:
             pass
+        if case.get("with_source_map") and rc == 0 and api["status"] == "ok":
+            try:
+                with open(os.path.join(d, "sm.json")) as fh:
+                    smf = json.load(fh)
+                if json.dumps(smf, sort_keys=True) != json.dumps(json.loads(api["sm"]), sort_keys=True):
+                    rec["docParsed"] = False
+                    rec["stderr"] = "source map file differs from the API's source map"
+            except Exception as ex:
+                rec["docParsed"] = False
+                rec["stderr"] = "source map file missing or unreadable: " + str(ex)[:100]
         if rec["docParsed"] and api["status"] == "ok" and rec["inputOk"]:
             rec["hasSettings"] = "settings" in doc and "routines" in doc
             rec["doc"] = doc_view(doc)
@@ -184,7 +195,10 @@ def documented_docs() -> list[dict]:
     ret = {"opcode": "Return", "params": []}
     pm = lambda x, y: {"type": "POSITION_MARK", "value": {"name": "Mark", "x": x, "y": y}}
     args = [3, {"type": "CONSTANT", "value": "ACTOR_X"}, {"type": "FIXED_POINT", "value": "1.5"}, {"type": "CONST_STRING", "value": "String"},
-            {"type": "LANG_STRING", "value": {"english": "Hello", "german": "Hallo"}}, pm(10, 20), pm("10", "10.5"), pm("3.5", 4), pm(0, "0.5")]
+            {"type": "LANG_STRING", "value": {"english": "Hello", "german": "Hallo"}}, pm(10, 20), pm("10", "10.5"), pm("3.5", 4), pm(0, "0.5"),
+            # boundary values of every argument type
+            0, -1, {"type": "CONST_STRING", "value": ""}, {"type": "LANG_STRING", "value": {"english": ""}}, {"type": "FIXED_POINT", "value": "0.0"},
+            {"type": "FIXED_POINT", "value": "-0.5"}, {"type": "CONSTANT", "value": "X"}, pm(0, 0), {"type": "POSITION_MARK", "value": {"name": "", "x": 1, "y": 2}}]
     out = []
     for a in args:
         out.append({"routines": [{"type": "GENERIC", "ops": [{"opcode": "vars", "params": [a, 2]}, ret]}]})
@@ -210,10 +224,11 @@ def main() -> int:
     fam = enum_exps.c01_family(False)
     # programs where the compiler dropped an op (offset gaps) and gap-free ones; all routine kinds; failing sources
     srcs = fam[:: (160 if not thorough else 8)] + [gen_exps.random_program(rng, max_depth=1, max_stmts=rng.choice([2, 3, 4])) for _ in range(60 if not thorough else 2000)]
-    srcs += ["def 0 { a(); return; }", "coro A { a(); return; }\ncoro B { b(); end; }", "def 0 { if ($V == 1) { a(); } b(); return; }",
+    srcs += ["def 0 { a(''); b(\"\", 0, -1, 0.0); return; }", "def 0 { a({english=''}); b(Position<'', 0, 0>); return; }",
+             "def 0 { a(); return; }", "coro A { a(); return; }\ncoro B { b(); end; }", "def 0 { if ($V == 1) { a(); } b(); return; }",
              "def 0 for actor 3 { a(); hold; }\ndef 1 for object OBJ_X { while ($V == 1) { b(); } return; }", "def 0 { break; }", "def 0 { x(", "def 0 { jump @nowhere; }", ""]
     bad_c, bad_d = invalid_invocations()
-    crecs = pmap(run_compile_case, [{"src": s} for s in srcs] + bad_c, limit=120.0, chunk=2)
+    crecs = pmap(run_compile_case, [{"src": s, "with_source_map": k % 3 == 1} for k, s in enumerate(srcs)] + bad_c, limit=120.0, chunk=2)
     drecs = pmap(run_decompile_case, documented_docs() + bad_d, limit=120.0, chunk=2)
     recs = crecs + drecs
     for r in recs:
